@@ -1082,6 +1082,10 @@ def _seqno_translation(fns, sel, title, produce_re):
         for st in b.stmts:
             if re.match(r"^_0 = Option::<std::result::Result<InternalValue, error::Error>>::Some\(", st):
                 rets.append(b.idx)
+    # a yield can also be `_0 = produced.map(Ok)` / `.map(|v| ..)`: a call whose destination is the return place
+    for b in live_blocks(fn):
+        if b.kind == "call" and b.dest == "_0" and re.search(r"Option::<InternalValue>::map::<", b.callee) and b not in maps_add:
+            rets.append(b.idx)
     if not rets:
         raise MirError("no `Some(..)` return found in " + fn.name)
     a.var("produced").var("translated")
@@ -2480,3 +2484,202 @@ def recover_levels_scans(fns):
 
 
 SPECS["O20.6"] = [recovery_scans_folder, recover_levels_scans]
+
+
+# ---------------------------------------------------------------------------------------------
+# C09 / C08 / C20 O9.6: a blob file is "dead" only on exact integer equality of stale and total bytes
+# ---------------------------------------------------------------------------------------------
+
+def is_dead_exact(fns):
+    fn = mir.find(fns, r"src/vlog/blob_file/mod\.rs[^>]*>::is_dead\(")
+    a = Automaton(fn, "O9.6 BlobFile::is_dead is the exact comparison fragmentation.bytes == meta.total_uncompressed_bytes (no rounding)")
+    fnames = struct_fields(SRC_ROOT, "src/blob_tree/gc.rs", "FragmentationEntry")
+    mnames = struct_fields(SRC_ROOT, "src/vlog/blob_file/meta.rs", "Metadata")
+    ok, why = False, "shape not recognised"
+    body = fn
+    cl = [b for b in live_blocks(fn) if b.kind == "call" and re.search(r"is_some_and::<", b.callee)]
+    floats = []
+    scope = [fn] + [cf for b in cl for cf in closure_fns(fns, b)]
+    for f in scope:
+        for b in live_blocks(f):
+            for st in b.stmts:
+                if re.search(r"as f(32|64) \(IntToFloat\)|: f(32|64)", st) or re.search(r"= (Div|Mul)\(", st):
+                    floats.append(st)
+            if b.kind == "call" and re.search(r"BlobFile::is_stale$|f32|f64", b.callee):
+                floats.append(b.callee)
+    eqs = []
+    for f in scope:
+        for b in live_blocks(f):
+            for st in b.stmts:
+                m = re.match(r"^_0 = Eq\(copy (_\d+), copy (_\d+)\)$", st)
+                if m:
+                    defs = {}
+                    for bb in live_blocks(f):
+                        for s2 in bb.stmts:
+                            mm = re.match(r"^(_\d+) = copy (.*)$", s2)
+                            if mm:
+                                defs[mm.group(1)] = mm.group(2)
+                    d1, d2 = defs.get(m.group(1), ""), defs.get(m.group(2), "")
+                    f1 = re.search(r"\(\(\*_\d+\)\.(\d+): u64\)$", d1)
+                    f2 = re.search(r"Metadata\)\.(\d+): u64\)$", d2)
+                    if not (f1 and f2):
+                        f1, f2 = re.search(r"\(\(\*_\d+\)\.(\d+): u64\)$", d2), re.search(r"Metadata\)\.(\d+): u64\)$", d1)
+                    if f1 and f2:
+                        eqs.append((fnames[int(f1.group(1))], mnames[int(f2.group(1))]))
+    if floats:
+        ok, why = False, "deadness goes through floating point / a ratio: %s" % floats[0][:80]
+    elif eqs == [("bytes", "total_uncompressed_bytes")]:
+        ok, why = True, "Eq(entry.bytes, meta.total_uncompressed_bytes)"
+    elif not eqs:
+        raise MirError("is_dead: neither an integer equality nor a float computation found")
+    else:
+        ok, why = False, "compares %s" % eqs
+    a.glue = [("is_dead(frag) = frag[id].bytes == meta.total_uncompressed_bytes, decided on u64 (%s)" % why, "proved" if ok else "refuted", 0.0)]
+    a.var("x")
+    a.event("ret:deadness not decided by exact equality", [] if ok else [b.idx for b in live_blocks(fn) if b.kind == "return"])
+    a.require("ret:deadness not decided by exact equality", "false", "a blob file can be declared dead (dropped from the version and deleted) while a few of its bytes are still referenced: %s" % why)
+    return [a]
+
+
+SPECS["O9.6"] = [is_dead_exact]
+
+
+# ---------------------------------------------------------------------------------------------
+# C01 / C07 O1.7: a run that enters a level is placed in front of the runs already there
+# ---------------------------------------------------------------------------------------------
+
+def run_placement(fns):
+    out = []
+    for nm in ("with_merge", "with_moved"):
+        fn = mir.find(fns, r"src/version/mod\.rs[^>]*>::%s\(" % nm)
+        a = Automaton(fn, "O1.7 Version::%s puts the new run in front of the destination level's runs" % nm)
+        rn = one(calls(fn, r"Run::<Table>::new$"), "Run::new of the incoming tables")
+        ins = calls(fn, r"Vec::<Run<Table>>::insert$")
+        psh = calls(fn, r"Vec::<Run<Table>>::push$")
+        front = [b for b in ins if re.match(r"^const 0_usize$", [x.strip() for x in mir.split_top(b.args)][1])]
+        ok = len(front) == 1 and not psh and len(ins) == 1
+        if not ins and not psh:
+            raise MirError("%s: the new run is neither inserted nor pushed into a Vec<Run<Table>>" % nm)
+        a.glue = [("runs.insert(0, new_run) and no other placement (insert calls: %d, push calls: %d)" % (len(ins), len(psh)), "proved" if ok else "refuted", 0.0)]
+        a.var("x")
+        a.event("call:new run placed behind older runs", [] if ok else [b.idx for b in (psh or ins)])
+        a.require("call:new run placed behind older runs", "false", "Version::%s does not place the incoming (newer) run at index 0 of the destination level: point reads take the first hit per level and return the older version" % nm)
+        out.append(a)
+    fn = mir.find(fns, r"src/version/mod\.rs[^>]*>::with_new_l0_run\(")
+    a = Automaton(fn, "O1.7 Version::with_new_l0_run puts the flushed run in front of the existing L0 runs")
+    psh = calls(fn, r"Vec::<Run<Table>>::push$")
+    ext = calls(fn, r"<Vec<Run<Table>> as Extend<Run<Table>>>::extend::<")
+    if len(psh) != 1 or len(ext) != 1:
+        raise MirError("with_new_l0_run: expected one push (new run) and one extend (previous runs), found %d / %d" % (len(psh), len(ext)))
+    a.var("extended")
+    a.event("call:extend(previous runs)", [ext[0].idx]).on("call:extend(previous runs)", "extended", True)
+    a.event("call:push(new run)", [psh[0].idx])
+    a.require("call:push(new run)", "(not {extended})", "the flushed run is appended after the previous L0 runs: older data shadows newer data in L0")
+    out.append(a)
+    return out
+
+
+SPECS["O1.7"] = [run_placement]
+
+
+# ---------------------------------------------------------------------------------------------
+# C17 / C08 O17.4: blob files written by the compaction filter join the new version
+# ---------------------------------------------------------------------------------------------
+
+def filter_blob_files_registered(fns):
+    out = []
+    for sel, nm in ((r"flavour\.rs:166[^>]*>::finish\(", "RelocatingCompaction"), (r"flavour\.rs:373[^>]*>::finish\(", "StandardCompaction")):
+        cands = [f for f in fns if re.search(r"src/compaction/flavour\.rs[^>]*>::finish\(", f.header) and nm in f.params and not f.closure_span()]
+        if len(cands) != 1:
+            raise MirError("%s::finish not found" % nm)
+        fn = cands[0]
+        a = Automaton(fn, "O17.4 %s::finish hands the blob files written by the compaction filter to with_merge as *new* blob files" % nm)
+        extra = fn.debug.get("extra_blob_files")
+        if not extra:
+            raise MirError("%s::finish: parameter extra_blob_files not found" % nm)
+        up = one(calls(fn, r"SuperVersions::upgrade_version::<"), "upgrade_version")
+        cfs = closure_fns(fns, up)
+        if len(cfs) != 1:
+            raise MirError("%s::finish: closure of upgrade_version not found" % nm)
+        cf = cfs[0]
+        wm = one(calls(cf, r"Version::with_merge$"), "with_merge in the closure")
+        args = [x.strip() for x in mir.split_top(wm.args)]
+        if len(args) != 7:
+            raise MirError("with_merge takes %d arguments" % len(args))
+
+        def cap_of(arg):
+            """index of the closure capture an argument of with_merge is (a move / borrow / clone of)"""
+            l = RE_LOCAL.search(arg)
+            seen = set()
+            cur = l.group(0) if l else None
+            for _ in range(6):
+                if cur is None or cur in seen:
+                    return None
+                seen.add(cur)
+                d = [st for bb in live_blocks(cf) for st in bb.stmts if st.startswith(cur + " = ")]
+                if len(d) == 1:
+                    m = re.search(r"\(\*?\(?_1\.(\d+):", d[0]) or re.search(r"\(_1\.(\d+):", d[0])
+                    if m:
+                        return int(m.group(1))
+                    l2 = RE_LOCAL.findall(d[0].split(" = ", 1)[1])
+                    cur = l2[0] if l2 else None
+                    continue
+                prod = [bb for bb in live_blocks(cf) if bb.kind == "call" and bb.dest == cur]
+                if len(prod) == 1:
+                    l2 = RE_LOCAL.findall(prod[0].args or "")
+                    cur = l2[0] if l2 else None
+                    continue
+                return None
+            return None
+        new_cap, drop_cap = cap_of(args[5]), cap_of(args[6])
+        # which locals of finish fill those captures?
+        agg = [st for b in live_blocks(fn) for st in b.stmts if re.search(r"= \{closure@[^}]+\} \{", st) and cf.closure_span() in st]
+        if len(agg) != 1:
+            raise MirError("%s::finish: closure aggregate not found" % nm)
+        caps = [x.strip() for x in mir.split_top(re.search(r"\} \{ (.*) \}$", agg[0]).group(1))]
+
+        def finish_local(idx):
+            if idx is None or idx >= len(caps):
+                return set()
+            l = RE_LOCAL.search(caps[idx].split(": ", 1)[1])
+            cur = l.group(0) if l else None
+            chain = {cur} if cur else set()
+            for _ in range(4):  # through `_x = &_y` / moves
+                d = [st for b in live_blocks(fn) for st in b.stmts if cur and st.startswith(cur + " = ")]
+                if len(d) == 1 and re.match(r"^_\d+ = (&|&mut |move |copy )(_\d+)$", d[0]):
+                    cur = RE_LOCAL.findall(d[0])[1]
+                    chain.add(cur)
+                else:
+                    break
+            return chain
+        new_local, drop_local = finish_local(new_cap), finish_local(drop_cap)
+        # does `extra_blob_files` flow into new_local (directly, or by extend) - and not into drop_local?
+        def flows_into(target):
+            if not target:
+                return False
+            if extra in target:
+                return True
+            for b in calls(fn, r"<Vec<BlobFile> as Extend<BlobFile>>::extend::<"):
+                aa = [x.strip() for x in mir.split_top(b.args)]
+                dst = RE_LOCAL.search(aa[0]).group(0)
+                dd = [st for bb in live_blocks(fn) for st in bb.stmts if st.startswith(dst + " = &mut ")]
+                base = RE_LOCAL.findall(dd[0])[1] if dd else dst
+                src = RE_LOCAL.search(aa[1]).group(0)
+                sd = [st for bb in live_blocks(fn) for st in bb.stmts if st.startswith(src + " = ")]
+                srcb = RE_LOCAL.findall(sd[0])[1] if sd and re.match(r"^_\d+ = (move|copy) _\d+$", sd[0]) else src
+                if base in target and srcb == extra:
+                    return True
+            return False
+        into_new, into_drop = flows_into(new_local), flows_into(drop_local)
+        ok = into_new and not into_drop
+        a.glue = [("extra_blob_files reaches with_merge's new_blob_files argument (capture #%s, local %s): %s; reaches blob_files_to_drop: %s" % (new_cap, new_local, into_new, into_drop),
+                   "proved" if ok else "refuted", 0.0)]
+        a.var("x")
+        a.event("call:upgrade_version without the filter's blob files as new blob files", [] if ok else [up.idx])
+        a.require("call:upgrade_version without the filter's blob files as new blob files", "false",
+                  "%s::finish does not register the blob files the compaction filter wrote (or schedules them for dropping): a replaced value above the separation threshold points into a blob file the version does not know" % nm)
+        out.append(a)
+    return out
+
+
+SPECS["O17.4"] = [filter_blob_files_registered]
